@@ -35,6 +35,15 @@ func drawKnobs(w *World) Knobs {
 	if t.Bool(10) {
 		k.WriteBuffer = 16 << 10 // small enough for memtable flushes and compaction
 	}
+	// background work in several steps on small worlds: a rescan batch of a
+	// few blocks, a removal round of a few credits (half of the runs each;
+	// the built-in sizes are met by the long-chain variants)
+	if t.Bool(50) {
+		k.ImportBatch = uint64(1 + t.Int(6))
+	}
+	if t.Bool(50) {
+		k.RemoveRound = 1 + t.Int(4)
+	}
 	return k
 }
 
